@@ -50,7 +50,8 @@ MUTS = (
        "wrong_ltsk", "wrong_id_signed", "wrong_id_unsigned", "permute", "sign_other_key", "sign_truncated", "wrong_nonce", "wrong_kv", "replay_m2",
        "trunc", "garbage_reply", "foreign_key_embedded", "foreign_key_embedded", "foreign_key_embedded_other_type", "extra_inner_random", "genuine_plus_extra"]
 )
-RESUME_MUTS = [None, None, "resume_wrong_secret", "resume_wrong_sid", "resume_nonempty", "resume_bit_tag", "resume_bit_sid", "resume_drop_method", "resume_decline"]
+RESUME_MUTS = [None, None, "resume_wrong_secret", "resume_wrong_sid", "resume_nonempty", "resume_bit_tag", "resume_bit_sid", "resume_drop_method", "resume_decline",
+               "resume_resize_tag", "resume_resize_tag", "resume_resize_sid", "resume_drop_tag"]
 
 
 def gen_plan(seed: int, tier: str) -> dict:
@@ -131,6 +132,12 @@ def build_mut(kind, r: random.Random, ch: Chooser, rec_m2=None):
         return {"kind": "outer", "outer": {"kind": "bitflip", "field": hap.T_ENC, "bit": bit}}, None
     if kind == "resume_bit_sid":
         return {"kind": "outer", "outer": {"kind": "bitflip", "field": hap.T_SESSIONID, "bit": bit}}, None
+    if kind == "resume_resize_tag":  # truncated (a prefix of the genuine tag, down to nothing) or padded
+        return {"kind": "outer", "outer": {"kind": "setlen", "field": hap.T_ENC, "n": r.choice(list(range(0, 16)) + [17, 24, 32])}}, None
+    if kind == "resume_resize_sid":
+        return {"kind": "outer", "outer": {"kind": "setlen", "field": hap.T_SESSIONID, "n": r.choice([0, 1, 4, 7, 9, 16])}}, None
+    if kind == "resume_drop_tag":
+        return {"kind": "outer", "outer": {"kind": "drop", "field": hap.T_ENC}}, None
     if kind == "resume_drop_method":
         return {"kind": "outer", "outer": {"kind": "drop", "field": hap.T_METHOD}}, None
     if kind == "resume_decline":
